@@ -8,7 +8,7 @@ import numpy as np
 from . import rfortran as rf
 
 STARTS = [(2019182, 12), (1970001, 0), (1999365, 23), (2000059, 23), (2000366, 23), (2069365, 23),
-          (2000060, 22)]
+          (2000060, 22), (2004366, 22)]
 PAYLOADS = ['ramp', 'zero', 'negzero', 'one', 'denorm', 'tiny', 'huge', 'neg']
 NAMES = ['AVERAGE', 'EMISSIONS', 'AIRQUALITY', 'INSTANT']
 SPECIES = [['O3'], ['O3', 'NO2'], ['O', 'NO2', 'ABCDEFGHIJ'], ['NO', 'NO_2']]
@@ -104,6 +104,9 @@ def extras(fmt, add):
         add(cldhdr=1)
         add(cldhdr=1, nsteps=1)
     if fmt in MET:
+        # files that run over New Year with two steps before midnight
+        for n in (3, 4):
+            add(nsteps=n, start=7)
         # daily files: consecutive steps carry the same hour and differ in the date only
         for n in (2, 3):
             add(nsteps=n, daily=True)
